@@ -99,6 +99,10 @@ type Revocation struct {
 	OnCall func()
 	Delay  time.Duration
 	CtxErr bool
+	// OKIfSigningTimeGiven emulates a revocation with an invalidity date in the future of any
+	// claimed time: the real checkers report such a certificate as OK when they are handed an
+	// authentic signing time (earlier than the invalidity date) and as revoked otherwise
+	OKIfSigningTimeGiven bool
 }
 
 func (r *Revocation) enter() {
@@ -122,6 +126,9 @@ func (r *Revocation) answer(chain []*x509.Certificate, t time.Time, iface string
 		res := result.ResultOK
 		if i < len(r.Results) {
 			res = r.Results[i]
+		}
+		if r.OKIfSigningTimeGiven && res == result.ResultRevoked && !t.IsZero() {
+			res = result.ResultOK
 		}
 		out[i] = &result.CertRevocationResult{Result: res, ServerResults: []*result.ServerResult{{Result: res, Server: "http://scripted.example/ocsp", RevocationMethod: result.RevocationMethodOCSP}}, RevocationMethod: result.RevocationMethodOCSP}
 		if r.Decor != nil {
